@@ -45,6 +45,9 @@ harness(void)
 	ING(size_t, g_j);
 
 	__CPROVER_assume(in_m <= GS_LMAX && g_j < GS_LMAX && in_pfx <= 2);
+#ifdef V_P
+	__CPROVER_assume(in_pfx == V_P);
+#endif
 	__CPROVER_assume(in_line < ((size_t)1 << 32) && in_col >= 1 && in_col < ((size_t)1 << 32));
 	s = lit_setup(in_c0, in_c1, in_m, in_splices, in_line, in_col, in_saw, in_pfx);
 	__CPROVER_assume(gs_canonical());
